@@ -1565,3 +1565,50 @@ def _fclamp(ctx, args, ck):
     if ctx.branch(ctx.m.fp_binop('Gt', x, hi)):
         return hi
     return x
+
+
+def _u8_class(name, pred_py, pred_z3):
+    def f(ctx, args, ck):
+        c = ctx.m.peel(args[0])
+        if isinstance(c.v, int):
+            return pred_py(c.v)
+        return pred_z3(c.v)
+    MODELS['u8::' + name] = f
+
+
+_u8_class('is_ascii_whitespace', lambda v: v in (0x20, 0x09, 0x0A, 0x0C, 0x0D),
+          lambda v: z3.Or(v == 0x20, v == 0x09, v == 0x0A, v == 0x0C, v == 0x0D))
+_u8_class('is_ascii_digit', lambda v: 0x30 <= v <= 0x39, lambda v: z3.And(z3.UGE(v, 0x30), z3.ULE(v, 0x39)))
+_u8_class('is_ascii_alphabetic', lambda v: 0x41 <= v <= 0x5A or 0x61 <= v <= 0x7A,
+          lambda v: z3.Or(z3.And(z3.UGE(v, 0x41), z3.ULE(v, 0x5A)), z3.And(z3.UGE(v, 0x61), z3.ULE(v, 0x7A))))
+_u8_class('is_ascii_uppercase', lambda v: 0x41 <= v <= 0x5A, lambda v: z3.And(z3.UGE(v, 0x41), z3.ULE(v, 0x5A)))
+_u8_class('is_ascii_lowercase', lambda v: 0x61 <= v <= 0x7A, lambda v: z3.And(z3.UGE(v, 0x61), z3.ULE(v, 0x7A)))
+_u8_class('is_ascii_punctuation', lambda v: (0x21 <= v <= 0x2F) or (0x3A <= v <= 0x40) or (0x5B <= v <= 0x60) or (0x7B <= v <= 0x7E),
+          lambda v: z3.Or(z3.And(z3.UGE(v, 0x21), z3.ULE(v, 0x2F)), z3.And(z3.UGE(v, 0x3A), z3.ULE(v, 0x40)),
+                          z3.And(z3.UGE(v, 0x5B), z3.ULE(v, 0x60)), z3.And(z3.UGE(v, 0x7B), z3.ULE(v, 0x7E))))
+
+
+@model('str::is_ascii', 'String::is_ascii')
+def _str_is_ascii(ctx, args, ck):
+    s = as_str(ctx, args[0])
+    return all(w == 1 for w in s.widths())
+
+
+@model('[]::is_ascii')
+def _slice_is_ascii(ctx, args, ck):
+    s = as_slice(ctx, args[0])
+    return ctx.m.conj([ctx.m.int_binop('Lt', ctx.m.peel(b), Int(0x80, 'u8')) for b in s.items()])
+
+
+@model('char::is_ascii_whitespace#', 'char::to_ascii_lowercase', 'char::to_ascii_uppercase')
+def _char_ascii_case(ctx, args, ck):
+    c = ctx.m.peel(args[0])
+    lower = 'lower' in ck.name
+    if isinstance(c.v, int):
+        ch = chr(c.v)
+        if c.v < 128:
+            ch = ch.lower() if lower else ch.upper()
+        return Int(ord(ch), 'char')
+    if lower:
+        return Int(z3.If(z3.And(z3.UGE(c.v, 0x41), z3.ULE(c.v, 0x5A)), c.v + 32, c.v), 'char', c.w)
+    return Int(z3.If(z3.And(z3.UGE(c.v, 0x61), z3.ULE(c.v, 0x7A)), c.v - 32, c.v), 'char', c.w)
